@@ -280,7 +280,7 @@ def parse_func(m,ln,body):
 # ---------------------------------------------------------------- function translation
 class FX:
     def __init__(s,m,f):
-        s.m=m; s.f=f; s.types={}; s.out=[]; s.decl=[]
+        s.m=m; s.f=f; s.types={}; s.out=[]; s.decl=[]; s.bsrc={}; s.localmem=[]; s.entry=None; s.p2isrc={}
     def vn(s,v):  # local name
         return 'v_'+mangle(v[1:].strip('"'))
     def gname(s,g):
@@ -501,6 +501,7 @@ class Trans:
                     phis.setdefault(lab,[]).append((dst,t,inc)); vt[dst]=t
         # translate
         code=[]
+        fx.entry=insts[0][0] if insts else None
         for (lab,bl) in insts:
             code.append('L_%s:;'%mangle(lab))
             for (dst,rhs) in bl:
@@ -516,6 +517,7 @@ class Trans:
         for (lab,pl) in phis.items():
             for (dst,t,inc) in pl:
                 decls.append('  %s %s_phi;'%(m.ct(t),fx.vn(dst)))
+        decls.extend(fx.localmem)
         sig=s.sig(f.name,f.ret,[p[0] for p in params],[fx.vn(p[1]) for p in params],getattr(f,'va',False))
         return sig+'\n{\n'+'\n'.join(decls)+'\n'+'\n'.join('  '+c for c in code)+'\n}\n'
     def sig(s,name,ret,ptypes,pnames=None,va=False):
@@ -551,7 +553,11 @@ class Trans:
         if op in('add','sub','mul','udiv','sdiv','urem','srem','and','or','xor','shl','lshr','ashr','fadd','fsub','fmul','fdiv','frem'):
             rest=re.sub(r'^((nuw|nsw|exact|fast|nnan|ninf|nsz|arcp|contract|afn|reassoc)\s+)*','',rest)
             t,r=m.ptype(rest); a,b=split_top(r)
-            return setv(t,s.binop(op,t,s.val(fx,t,a),s.val(fx,t,b)))
+            A_=s.val(fx,t,a); B_=s.val(fx,t,b)
+            if op=='sub' and A_ in fx.p2isrc and B_ in fx.p2isrc:
+                # pointer difference: fold to an offset difference when both point into the same object (lets CBMC constant-propagate lengths)
+                return setv(t,'irc_pdiff((u8*)(%s),(u8*)(%s))'%(fx.p2isrc[A_],fx.p2isrc[B_]))
+            return setv(t,s.binop(op,t,A_,B_))
         if op=='fneg':
             rest=re.sub(r'^((fast|nnan|ninf|nsz|arcp|contract|afn|reassoc)\s+)*','',rest)
             t,r=m.ptype(rest); return setv(t,'(-(%s))'%s.val(fx,t,r))
@@ -562,8 +568,8 @@ class Trans:
             if isinstance(t,PtrT):
                 if pred in('eq','ne'): e='((u8*)%s %s (u8*)%s)'%(A,{'eq':'==','ne':'!='}[pred],B)
                 else:
-                    o={'ult':'<','ule':'<=','ugt':'>','uge':'>=','slt':'<','sle':'<=','sgt':'>','sge':'>='}[pred]
-                    e='(irc_p2i((u8*)%s) %s irc_p2i((u8*)%s))'%(A,o,B)
+                    k={'ult':0,'slt':0,'ule':1,'sle':1,'ugt':2,'sgt':2,'uge':3,'sge':3}[pred]
+                    e=['irc_plt((u8*)%s,(u8*)%s)','(!irc_plt((u8*)%s,(u8*)%s))','irc_plt((u8*)%s,(u8*)%s)','(!irc_plt((u8*)%s,(u8*)%s))'][k]%((A,B),(B,A),(B,A),(A,B))[k]
             else:
                 if pred in('eq','ne','ult','ule','ugt','uge'):
                     o={'eq':'==','ne':'!=','ult':'<','ule':'<=','ugt':'>','uge':'>='}[pred]
@@ -592,7 +598,11 @@ class Trans:
         if op in('trunc','zext','sext','bitcast','ptrtoint','inttoptr','fptoui','fptosi','uitofp','sitofp','fpext','fptrunc','addrspacecast'):
             k=rest.rfind(' to ')
             st,r=m.ptype(rest[:k]); dt,_=m.ptype(rest[k+4:])
-            return setv(dt,s.cast(op,st,s.val(fx,st,r),dt))
+            sv_=s.val(fx,st,r)
+            if op=='ptrtoint' and dst is not None and isinstance(dt,IntT) and dt.b==64: fx.p2isrc[fx.vn(dst)]=sv_
+            if op=='bitcast' and isinstance(st,PtrT) and isinstance(dt,PtrT) and dst is not None and not isinstance(st.e,(FnT,VoidT)) and not (isinstance(st.e,StructT) and st.e.fields is None):
+                fx.bsrc[fx.vn(dst)]=(st.e,sv_)
+            return setv(dt,s.cast(op,st,sv_,dt))
         if op=='select':
             rest=re.sub(r'^((fast|nnan|ninf|nsz|arcp|contract|afn|reassoc)\s+)*','',rest)
             parts=split_top(rest)
@@ -612,19 +622,41 @@ class Trans:
             vt[dst]=PtrT(t)
             nm=fx.vn(dst)+'_mem'
             if n is None:
-                return ['static %s %s; %s = &%s;'%(m.ct(t),nm,fx.vn(dst),nm)] if False else ['%s = (%s*)irc_alloca(sizeof(%s));'%(fx.vn(dst),m.ct(t),m.ct(t))]
+                if lab==fx.entry:
+                    # static alloca: a typed local (one per activation) keeps CBMC field-sensitive; content is nondeterministic like a fresh object
+                    fx.localmem.append('  %s %s;'%(m.ct(t),nm))
+                    return ['%s = &%s;'%(fx.vn(dst),nm)]
+                return ['%s = (%s*)irc_alloca(sizeof(%s));'%(fx.vn(dst),m.ct(t),m.ct(t))]
             return ['%s = (%s*)irc_alloca(sizeof(%s)*(%s));'%(fx.vn(dst),m.ct(t),m.ct(t),n)]
         if op=='load':
-            rest=re.sub(r'^(volatile|atomic)\s+','',rest)
+            rest=re.sub(r'^((volatile|atomic)\s+)+','',rest)
+            rest=re.sub(r'\s+(syncscope\("[^"]*"\)\s+)?(unordered|monotonic|acquire|release|acq_rel|seq_cst)\b','',rest)
             parts=split_top(rest)
             t,_=m.ptype(parts[0]); pt,r=m.ptype(parts[1])
             return setv(t,'*(%s)'%s.val(fx,pt,r))
         if op=='store':
-            rest=re.sub(r'^(volatile|atomic)\s+','',rest)
+            rest=re.sub(r'^((volatile|atomic)\s+)+','',rest)
+            rest=re.sub(r'\s+(syncscope\("[^"]*"\)\s+)?(unordered|monotonic|acquire|release|acq_rel|seq_cst)\b','',rest)
             parts=split_top(rest)
             t,r=m.ptype(parts[0]); v=s.val(fx,t,r)
             pt,r=m.ptype(parts[1]); p=s.val(fx,pt,r)
             return ['*(%s) = %s;'%(p,v)]
+        if op=='atomicrmw':
+            # sequential semantics (kernels are single-threaded; concurrency is C20, n/a)
+            rest=re.sub(r'^volatile\s+','',rest)
+            aop,rest2=rest.split(None,1)
+            parts=split_top(rest2)
+            pt,r=m.ptype(parts[0]); ptr=s.val(fx,pt,r)
+            t,r2=m.ptype(parts[1]); r2=r2.strip().split()[0]; v=s.val(fx,t,r2)
+            cop={'add':'+','sub':'-','and':'&','or':'|','xor':'^'}
+            out=[]
+            if dst is not None:
+                vt[dst]=t; out.append('%s = *(%s);'%(fx.vn(dst),ptr))
+            if aop=='xchg': out.append('*(%s) = %s;'%(ptr,v))
+            elif aop in cop: out.append('*(%s) = %s;'%(ptr,mask(t,'(u64)*(%s) %s (u64)%s'%(ptr,cop[aop],v))))
+            else: raise Err('atomicrmw '+aop)
+            return out
+        if op=='fence': return []
         if op=='getelementptr':
             rest=re.sub(r'^inbounds\s+','',rest)
             parts=split_top(rest)
@@ -708,6 +740,11 @@ class Trans:
             at,ar=m.ptype(a2); args.append((at,s.val(fx,at,ar)))
         if direct and callee.startswith('llvm.'):
             return s.intrinsic(fx,vt,dst,callee,rt,args)
+        if direct and callee in LIBC_MAP and callee not in m.funcs:
+            e=LIBC_MAP[callee]%tuple(a[1] for a in args)
+            if isinstance(rt,VoidT) or dst is None: return [e+';']
+            vt[dst]=rt
+            return ['%s = (%s)(%s);'%(fx.vn(dst),m.ct(rt),e)]
         if direct:
             s.need.add(callee)
             fn=cname(callee)
@@ -727,6 +764,14 @@ class Trans:
             vt[dst]=rt; return ['%s = %s;'%(fx.vn(dst),e)]
         if name.startswith('llvm.lifetime') or name.startswith('llvm.dbg') or name.startswith('llvm.experimental.noalias') or name=='llvm.donothing': return []
         if name.startswith('llvm.assume'): return ['__CPROVER_assume(%s);'%a[0]]
+        m=s.m
+        if name.startswith('llvm.memset') and a[0] in fx.bsrc and re.match(r'^\(*\(u8\)0x0ULL\)*$',a[1].replace(' ','')):
+            et,src=fx.bsrc[a[0]]; T=m.ct(et)
+            zero='0' if isinstance(et,(IntT,FT,PtrT)) else '(%s){0}'%T
+            return ['if (sizeof(%s) == (%s)) { *(%s) = %s; } else irc_memset((u8*)%s,%s,%s);'%(T,a[2],src,zero,a[0],a[1],a[2])]
+        if name.startswith('llvm.memcpy') and a[0] in fx.bsrc and a[1] in fx.bsrc and fx.bsrc[a[0]][0].key()==fx.bsrc[a[1]][0].key():
+            et,d0=fx.bsrc[a[0]]; _,s0=fx.bsrc[a[1]]; T=m.ct(et)
+            return ['if (sizeof(%s) == (%s)) { *(%s) = *(%s); } else irc_memcpy((u8*)%s,(u8*)%s,%s);'%(T,a[2],d0,s0,a[0],a[1],a[2])]
         if name.startswith('llvm.memcpy') : return ['irc_memcpy((u8*)%s,(u8*)%s,%s);'%(a[0],a[1],a[2])]
         if name.startswith('llvm.memmove'): return ['irc_memmove((u8*)%s,(u8*)%s,%s);'%(a[0],a[1],a[2])]
         if name.startswith('llvm.memset'): return ['irc_memset((u8*)%s,%s,%s);'%(a[0],a[1],a[2])]
@@ -747,6 +792,11 @@ class Trans:
         if name.startswith('llvm.fshr'):
             w=t.b; return setv(mask(t,'irc_fshr(%s,%s,%s,%d)'%(a[0],a[1],a[2],w)))
         if name.startswith('llvm.fabs'): return setv('irc_fabs(%s)'%a[0])
+        mm=re.match(r'llvm\.(ceil|floor|trunc|round|rint|nearbyint|sqrt|log10|log2|log|exp2|exp|pow|copysign|fmuladd|fma)\.f(32|64)$',name)
+        if mm:
+            fn=mm.group(1); suf='f' if mm.group(2)=='32' else ''
+            if fn=='fmuladd': return setv('((%s*%s)+%s)'%(a[0],a[1],a[2]))
+            return setv('%s%s(%s)'%(fn,suf,', '.join(a)))
         if name.startswith('llvm.is.constant'): return setv('0')
         if name.startswith('llvm.objectsize'): return setv('((u64)-1)')
         mm=re.match(r'llvm\.(u|s)(add|sub|mul)\.with\.overflow\.i(\d+)',name)
@@ -756,7 +806,10 @@ class Trans:
             return ['%s = irc_%s%s_ov%d(%s,%s);'%(fx.vn(dst),sg,o,w,a[0],a[1])] + s.ovneed(sg,o,w,rt)
         mm=re.match(r'llvm\.(u|s)(add|sub)\.sat\.i(\d+)',name)
         if name.startswith('llvm.launder.invariant.group') or name.startswith('llvm.strip.invariant.group'): return setv(a[0])
-        if name.startswith('llvm.prefetch'): return []
+        if name.startswith('llvm.prefetch') or name.startswith('llvm.invariant.end'): return []
+        if name.startswith('llvm.invariant.start'):
+            if dst is None: return []
+            return setv('((u8*)0)')
         raise Err('intrinsic '+name)
     def ovneed(s,sg,o,w,rt):
         s.ovs=getattr(s,'ovs',{}); s.ovs[(sg,o,w)]=rt; return []
@@ -773,6 +826,9 @@ void irc_native_fail(const char*);
 #ifndef IRC_ASSERT
 #define IRC_ASSERT(c,msg) __CPROVER_assert(c,msg)
 #endif
+double ceil(double); double floor(double); double trunc(double); double round(double); double rint(double); double nearbyint(double); double sqrt(double); double log10(double); double log2(double); double log(double); double exp2(double); double exp(double); double pow(double,double); double copysign(double,double); double fma(double,double,double);
+float ceilf(float); float floorf(float); float truncf(float); float roundf(float); float sqrtf(float); float copysignf(float,float);
+int memcmp(const void*, const void*, unsigned long); unsigned long strlen(const char*); void *memchr(const void*, int, unsigned long);
 void *memcpy(void*, const void*, unsigned long); void *memmove(void*, const void*, unsigned long); void *memset(void*, int, unsigned long);
 static inline double irc_bits2d(u64 b){ union { u64 b; double d; } u; u.b=b; return u.d; }
 static inline float irc_bits2f(u32 b){ union { u32 b; float d; } u; u.b=b; return u.d; }
@@ -785,6 +841,15 @@ static inline u32 irc_f2bits(float d){ union { u32 b; float d; } u; u.d=d; retur
 static inline u64 irc_p2i(u8* p){ s64 off = ((s64)((u64)__CPROVER_POINTER_OFFSET(p) << IRC_OBJECT_BITS)) >> IRC_OBJECT_BITS; return ((u64)__CPROVER_POINTER_OBJECT(p) << 40) + (u64)off; }
 #else
 static inline u64 irc_p2i(u8* p){ return (u64)p; }
+#endif
+#ifdef __CPROVER__
+static inline s64 irc_soff(u8* p){ return ((s64)((u64)__CPROVER_POINTER_OFFSET(p) << IRC_OBJECT_BITS)) >> IRC_OBJECT_BITS; }
+/* same-object fast path folds during symbolic execution; one-before-the-start pointers compare correctly (signed offsets) */
+static inline int irc_plt(u8* p, u8* q){ return __CPROVER_same_object(p,q) ? irc_soff(p) < irc_soff(q) : irc_p2i(p) < irc_p2i(q); }
+static inline u64 irc_pdiff(u8* p, u8* q){ return __CPROVER_same_object(p,q) ? (u64)(irc_soff(p) - irc_soff(q)) : irc_p2i(p) - irc_p2i(q); }
+#else
+static inline int irc_plt(u8* p, u8* q){ return (u64)p < (u64)q; }
+static inline u64 irc_pdiff(u8* p, u8* q){ return (u64)p - (u64)q; }
 #endif
 static inline int irc_isnan(double d){ return d!=d; }
 static inline double irc_fabs(double d){ return d<0?-d:(d==0?0.0:d); }
@@ -805,7 +870,22 @@ static inline u64 irc_fshl(u64 a,u64 b,u64 c,int w){ c%=w; if(c==0) return a; re
 static inline u64 irc_fshr(u64 a,u64 b,u64 c,int w){ c%=w; if(c==0) return b; return (a<<(w-c))|(b>>c); }
 '''
 
+LIBC_MAP={'memcmp':'memcmp((const void*)%s,(const void*)%s,%s)','strlen':'strlen((const char*)%s)','memchr':'memchr((const void*)%s,(int)%s,%s)','bcmp':'memcmp((const void*)%s,(const void*)%s,%s)'}
+RUNTIME_MODELS={
+ '__cxa_atexit':'return 0;',
+ '__cxa_guard_acquire':'return *(u8*)a0 == 0;',
+ '__cxa_guard_release':'*(u8*)a0 = 1;',
+ '__cxa_guard_abort':'',
+ '_ZNSt3_V215system_categoryEv':'static u64 irc_syscat[4]; return (RET)irc_syscat;',
+ '_ZNSt3_V216generic_categoryEv':'static u64 irc_gencat[4]; return (RET)irc_gencat;',
+ '_Znwm':'u8* p = malloc(a0 ? a0 : 1); __CPROVER_assume(p != 0); return (RET)p;',
+ '_Znam':'u8* p = malloc(a0 ? a0 : 1); __CPROVER_assume(p != 0); return (RET)p;',
+ '_ZdlPv':'',
+ '_ZdaPv':'',
+ '_ZdlPvm':'',
+}
 def emit(m,entries,stubs,out,protos=None):
+    models_used=[]
     tr=Trans(m)
     # closure of needed functions
     done={}; work=list(entries); order=[]
@@ -891,6 +971,12 @@ def emit(m,entries,stubs,out,protos=None):
         elif n in m.decls:
             ft=m.decls[n]
             if n.startswith('llvm.'): continue
+            if n in RUNTIME_MODELS:
+                # C++ runtime symbols modelled by contract inside the generated C (CBMC build only; native builds link the real runtime)
+                sg=tr.sig(n,ft.ret,ft.args,['a%d'%i for i in range(len(ft.args))],ft.va)
+                o.append('#ifdef IRC_NATIVE\nextern '+tr.sig(n,ft.ret,ft.args,None,ft.va)+';\n#else\n'+sg+' { '+RUNTIME_MODELS[n].replace('RET',m.ct(ft.ret))+' }\n#endif')
+                models_used.append(n)
+                continue
             o.append('extern '+tr.sig(n,ft.ret,ft.args,None,ft.va)+';')
     for n in stubs:
         if n in m.funcs:
@@ -916,7 +1002,7 @@ def emit(m,entries,stubs,out,protos=None):
     return dict(entries=list(entries),
                 functions=sorted('%s (%d IR lines)'%(n,len(m.funcs[n].lines)) for n in order if n in m.funcs),
                 externs=sorted(n for n in done if n not in m.funcs and n not in m.globals and not n.startswith('llvm.')),
-                stubbed=sorted(stubs))
+                stubbed=sorted(stubs), runtime_models=models_used)
 
 def ginit(tr,t,init):
     m=tr.m
